@@ -69,6 +69,8 @@ def c19_plan(run, replay=None):
     else:
         run.tlc("DirSourceMC", "C19_quick.cfg" if q else "C19_thorough.cfg", "design", workers=8,
                 cases_out="cases.ndjson", timeout=1500)
+        if not q:
+            run.tlc("DirSourceMC", "C19_thorough4.cfg", "design", workers=8, cases_out="cases.ndjson", timeout=1500)
     s = run.harness("dirsrc", ["-in", "cases.ndjson", "-out", "trace.ndjson"] + ([] if replay else ["-longrun", 150 if q else 700]), timeout=3000)
     run.load_inputs("trace.ndjson.inputs")
     run.validate_trace("DirSourceTrace", "trace.ndjson", s["cases"], timeout=3000)
